@@ -198,7 +198,7 @@ def explore(bname, smp, mod, ops_so_far, levels, res, seen, first=None):
         res.maximum('max_npoints', mod2.npoints)
         res.distinct('distinct_nontrivial', key + M.typesig(smp2, 9))
         res.distinct('distinct_outcomes', M.typesig(smp2, 3))
-        if len(ops) == 3 and mod2.npoints and mod2.nelems > 1:
+        if (len(ops) == 3 or not res.samples) and mod2.npoints and mod2.nelems > 1:
             res.sample({'sample': M.describe(bname, ops), 'type': M.typesig(smp2, 3), 'nelems': mod2.nelems, 'npoints': mod2.npoints,
                         'index': [[i for l, w, i in e] for e in mod2.elems][:4], 'sum_wF': [round(float(v), 9) for v in mod2.integral()]})
         explore(bname, smp2, mod2, ops, levels[1:], res, seen)
